@@ -425,7 +425,9 @@ def isolatedTermConstant (h : List Ev) : Option String :=
           | .quiet t => some t
           | _ => none)).getD 1000000000
         let ss := after.filterMap (fun x => match x with
-          | .sample s l t term _ _ _ _ _ _ _ _ _ => if s == srv && t > t1 + 30 && t < t2 then some (l, term) else none
+          -- (requests that had passed the cut when it was made are still delivered: up to 40 ms of
+          -- network delay plus up to 45 ms for a duplicate)
+          | .sample s l t term _ _ _ _ _ _ _ _ _ => if s == srv && t > t1 + 120 && t < t2 then some (l, term) else none
           | _ => none)
         match ss with
         | [] => none
